@@ -13,8 +13,12 @@ use std::hash::Hash;
 use std::hash::Hasher;
 
 use hashbrown::raw::RawTable;
+#[cfg(not(isographlabs_isograph_verif_loom))]
 use parking_lot::RwLock;
+#[cfg(not(isographlabs_isograph_verif_loom))]
 use parking_lot::RwLockWriteGuard;
+#[cfg(isographlabs_isograph_verif_loom)]
+use crate::verif_sync::{RwLock, RwLockWriteGuard};
 
 const SHARD_SHIFT: usize = 6;
 const SHARDS: usize = 1 << SHARD_SHIFT;
